@@ -1,5 +1,6 @@
 use crate::Stream;
 
+pub mod c10;
 pub mod c12;
 pub mod c19;
 
@@ -7,6 +8,7 @@ pub fn lookup(name: &str) -> Option<Box<dyn Stream>> {
     match name {
         "c19" => Some(Box::new(c19::C19::new())),
         "c12" => Some(Box::new(c12::C12::new())),
+        "c10" => Some(Box::new(c10::C10::new())),
         _ => None,
     }
 }
